@@ -52,7 +52,9 @@ def mc_plan(tier):
             for pname, pre in PREFIXES.items():
                 if kind == "none" and pname != "empty":
                     continue
-                d_emit = (4 if pname == "empty" else 3) + deep
+                # (with one step of history in the fingerprint the empty-prefix configuration is not deepened: 1.4 M states
+                # and 2.5 M drivers per configuration at depth 5)
+                d_emit = 4 if pname == "empty" else 3 + deep
                 plan.append(("emit_%s_%s_%s" % (layout, kind, pname),
                              dict(base, Prefix=pre, MaxLen=d_emit, Emit=True, WithLeak=True, OwnedToo=(pname != "twoseg"),
                                   HistView=True), "emit", layout))
@@ -444,6 +446,8 @@ def suite_fit(mc_results, tier, seed):
         # every history that ends with a state-dependent request (a segment's size, one less, or all fresh space) after a
         # release; a seeded sample of the others
         ds = [d for d in cand if d[-1]["k"] == "ab" and d[-1]["n"] not in fixed]
+        if len(ds) > 40000:
+            ds = rng.sample(ds, 40000)
         rest = [d for d in cand if not (d[-1]["k"] == "ab" and d[-1]["n"] not in fixed)]
         ds += rng.sample(rest, min(len(rest), 3000 if tier == "thorough" else 400))
         backends = LAYOUTS[r["layout"]][2]
